@@ -293,7 +293,7 @@ Proof.
   intros H. destruct m as [pk a amt|a|a|f t amt|f key v raw wf|f t amt act|f h raw]; simpl.
   - (* stake *)
     set (v0 := match get_val s a with Some v => v | None => _ end).
-    destruct (negb (v_status v0 =? 0)%N); [exact H|]. destruct (amt <? p_min_stake (pp s)); [exact H|].
+    destruct (negb (v_status v0 =? 0)%N); [exact H|]. destruct (match aget (sinfo s) a with Some si => si_tomb si | None => false end); [exact H|]. destruct (amt <? p_min_stake (pp s)); [exact H|].
     destruct (bal s a <? amt); [exact H|].
     set (s1 := match get_val s a with Some _ => s | None => _ end).
     assert (H1 : bank_ok s1) by (unfold s1; destruct (get_val s a); bk; auto).
